@@ -382,7 +382,7 @@ class _Interp:
         self.assign(s.target, cur + v if isinstance(s.op, ast.Add) else cur - v, env)
       elif isinstance(cur, list) and isinstance(v, (list, tuple)) and isinstance(s.op, ast.Add):
         cur.extend(v)
-        self._literal.discard(id(cur))
+        self._grown(cur, v)
       else:
         raise _unmodelled(f"`{src(s)[:50]}`")
     elif isinstance(s, ast.If):
@@ -418,6 +418,13 @@ class _Interp:
       self.block(s.finalbody, env)
     else:
       raise _unmodelled(f"statement `{src(s)[:50]}`")
+
+  def _grown(self, seq, added):
+    """A list written as a display keeps a length that does not depend on the
+    input while it only grows outside visitor callbacks (where every control
+    decision is recorded) by single elements or by such sequences."""
+    if self.visit_depth or (added is not None and id(added) not in self._literal):
+      self._literal.discard(id(seq))
 
   def iterable(self, it, where):
     if not isinstance(it, (list, tuple, set, frozenset)):
@@ -489,6 +496,30 @@ class _Interp:
         return False
     return True
 
+  def _locals_of(self, fn):
+    key = ("locals", fn)
+    if key not in self._consts:
+      out = set()
+      todo = list(fn.body)
+      while todo:
+        n = todo.pop()
+        if isinstance(n, (ast.FunctionDef, ast.AsyncFunctionDef, ast.ClassDef)):
+          out.add(n.name)
+          continue
+        if isinstance(n, ast.Lambda):
+          continue
+        if isinstance(n, ast.Name) and not isinstance(n.ctx, ast.Load):
+          out.add(n.id)
+        elif isinstance(n, (ast.Global, ast.Nonlocal)):
+          out -= set(n.names)
+        elif isinstance(n, (ast.ListComp, ast.SetComp, ast.DictComp, ast.GeneratorExp)):
+          # comprehension targets are local to the comprehension
+          todo.extend(g.iter for g in n.generators)
+          continue
+        todo.extend(ast.iter_child_nodes(n))
+      self._consts[key] = out
+    return self._consts[key]
+
   def module_constant(self, name):
     """Value of a name bound exactly once, at the top level of the module, to
     an expression the interpreter can evaluate; None (not a value: a marker)
@@ -545,6 +576,9 @@ class _Interp:
         return env[e.id]
       if e.id in self.mod.classes:
         return _Cls(e.id)
+      if self.frames and e.id in self._locals_of(self.frames[-1][0]):
+        raise _unmodelled(f"local `{e.id}` of {self.frames[-1][0].name} is read before it "
+                          "is bound")
       c = self.module_constant(e.id)
       if c is not None:
         return c[0]
@@ -660,18 +694,25 @@ class _Interp:
 
   def comp(self, e, env):
     out = []
+    fixed = [True]
 
     def rec(i, env):
       if i == len(e.generators):
         out.append(self.eval(e.elt, env))
         return
       g = e.generators[i]
-      for x in self.iterable(self.eval(g.iter, env), g.iter):
+      seq = self.eval(g.iter, env)
+      if id(seq) not in self._literal:
+        fixed.clear()
+      for x in self.iterable(seq, g.iter):
         env2 = dict(env)
         self.assign(g.target, x, env2)
         if all(self.truth(self.eval(c, env2), c) for c in g.ifs):
           rec(i + 1, env2)
     rec(0, env)
+    if fixed and not any(g.ifs for g in e.generators):
+      self._keep.append(out)
+      self._literal.add(id(out))
     return out
 
   def eval_call(self, e, env):
@@ -784,12 +825,12 @@ class _Interp:
           return None
         if isinstance(o, list) and f.attr == "append" and len(args) == 1:
           o.append(args[0])
-          self._literal.discard(id(o))
+          self._grown(o, None)
           return None
         if isinstance(o, list) and f.attr == "extend" and len(args) == 1 and \
             isinstance(args[0], (list, tuple)):
           o.extend(args[0])
-          self._literal.discard(id(o))
+          self._grown(o, args[0])
           return None
         raise _unmodelled(f"`{src(e)[:50]}`")
       if isinstance(o, _Opaque):
